@@ -16,26 +16,64 @@ STUBS = ['math.acos: uninterpreted on [-1,1], domain error outside; math.sin(aco
 ASSUMPTIONS = ['R model for symmetry/case structure; binary64 model for totality']
 NOT_DECIDED = ['result within [0, area of the smaller disc] (needs analytic reasoning about acos)',
                'accuracy 1e-5*R^2 against the exact lens area (transcendental + libm error analysis)']
-MUST_REACH = ['far', 'nested', 'lens']
+MUST_REACH = ['far', 'nested', 'lens', 'fp-returns', 'fp-norm']
+
+
+_orig_norm = Point.norm
+
+
+def _norm_stub(self):
+    d = getattr(Point, '_fv_norm', None)
+    return d if d is not None else _orig_norm(self)
 
 
 def setup():
     symx.install(G)
     symx.install(FR)
+    Point.norm = _norm_stub
 
 
 def reset():
-    pass
+    Point._fv_norm = None
+    if symx.z3 is not None:
+        FR.math = symx.MATH
+
+
+HINTS = ['none', 'd=r1+r2', 'd=|r1-r2|+', 'r1=r2']
 
 
 def cases(tier):
-    return [dict(kind='r-model', general=1), dict(kind='r-model', general=0)]
+    cs = [dict(kind='r-model', general=1), dict(kind='r-model', general=0)]
+    for h in HINTS:
+        cs.append(dict(kind='fp-body', hint=h))
+    cs.append(dict(kind='fp-norm'))
+    return cs
+
+
+# contract of the distance computed by Point.norm on bounded coordinates (proved on the real code by the fp-norm job,
+# assumed for the fresh distance in the fp-body jobs)
+DMAX = 4.0e6
+DMIN = 1e-170
+
+
+def norm_contract(d):
+    from fv import symf
+    import z3
+    return SymBoolAnd(symf.is_finite(d), d >= 0.0, d <= DMAX, (d == 0.0) | (d >= DMIN))
+
+
+def SymBoolAnd(*xs):
+    return And(*xs)
 
 
 OPTS = {'quick': dict(max_paths=2000, timeout_ms=20000), 'thorough': dict(max_paths=2000, timeout_ms=60000)}
 
 
 def body(I, case):
+    if case['kind'] == 'fp-body':
+        return body_fp(I, case)
+    if case['kind'] == 'fp-norm':
+        return body_norm(I, case)
     lo, hi = Fraction(1, 10**6), 10**6
     r1 = I.real('r1', lo, hi)
     r2 = I.real('r2', lo, hi)
@@ -82,3 +120,72 @@ def body(I, case):
 
 def _mentions_acos(a):
     return symx.is_sym(a) and 'acos' in a.e.sexpr()
+
+
+def body_fp(I, case):
+    """binary64 totality of the function body, the centre distance being a fresh value satisfying the norm contract"""
+    r1 = I.fp('r1', 1e-6, 1e6)
+    r2 = I.fp('r2', 1e-6, 1e6)
+    d = I.fp('d', 0.0, DMAX)
+    if I.mode == 'symbolic':
+        from fv import symf
+        FR.math = symf.FMATH
+        I.assume(norm_contract(d))
+        Point._fv_norm = d
+        h = case['hint']
+        if h == 'd=r1+r2':
+            I.assume(d == r1 + r2)
+        elif h == 'd=|r1-r2|+':
+            I.assume(d > abs(r1 - r2))
+            I.assume(d <= abs(r1 - r2) * 1.0000000000000004)
+        elif h == 'r1=r2':
+            I.assume(r1 == r2)
+    else:
+        if not (d == 0.0 or d >= DMIN):
+            I.discard('outside the norm contract')
+    c1, c2 = Point(0.0, 0.0), Point(d, 0.0)
+    try:
+        a = circle_circle_intersection_area(c1, r1, c2, r2)
+    except (ValueError, ZeroDivisionError, OverflowError) as e:
+        I.detail = f"raised {type(e).__name__}: {e}"
+        I.reached('fp-exception-path')
+        I.prove('total:never-fails(binary64)', False)
+        return
+    finally:
+        Point._fv_norm = None
+    I.reached('fp-returns')
+    if I.mode == 'symbolic':
+        from fv import symf
+        fin = symf.is_finite(a) if isinstance(a, symf.SymF) else True
+    else:
+        import math
+        fin = math.isfinite(a)
+    I.prove('result-is-a-finite-number', fin)
+
+
+def body_norm(I, case):
+    """the real Point.__sub__/norm on bounded binary64 coordinates satisfies the contract assumed above"""
+    x1, y1 = I.fp('x1', -1e6, 1e6), I.fp('y1', -1e6, 1e6)
+    x2, y2 = I.fp('x2', -1e6, 1e6), I.fp('y2', -1e6, 1e6)
+    Point._fv_norm = None
+    if I.mode == 'symbolic':
+        from fv import symf
+        G.math = symf.FMATH
+    try:
+        d = _orig_norm(Point(x1, y1) - Point(x2, y2))
+    except (ValueError, ZeroDivisionError, OverflowError) as e:
+        I.prove('norm-never-fails', False)
+        return
+    I.reached('fp-norm')
+    if I.mode == 'symbolic':
+        I.prove('norm-contract', norm_contract(d))
+    else:
+        import math
+        I.prove('norm-contract', math.isfinite(d) and 0 <= d <= DMAX and (d == 0.0 or d >= DMIN))
+
+
+def ctx_class(case):
+    if case['kind'].startswith('fp'):
+        from fv import symf
+        return symf.FCtx
+    return None
